@@ -80,6 +80,10 @@ def gen_world(rng, max_wrappers=5):
             kinds += ["failing"]
         if not pw.get("nested") and rng.random() < 0.4:
             kinds += ["nested"]
+        if rng.random() < 0.25:
+            # an application adapter that sends some of the requests to a mirror host (req_args.address):
+            # still the same connection, the same sequence of ids
+            kinds += ["retarget"]
         kind = rng.choice(kinds)
         w = {"kind": kind, "impl": pw["impl"], "parent": p,
              "auth": pw["auth"] or kind in ("bauth", "token", "client"),
@@ -208,6 +212,19 @@ def make_id_setter(cfg):
     return IdSetter()
 
 
+def make_retarget():
+    RA = hw.conn_http.RequestAdapter
+
+    class Retarget(RA):
+        """a user's adapter (documented hook, calls super) that re-targets some requests to a mirror host"""
+
+        def process_req_args(self, req_args):
+            super().process_req_args(req_args)
+            if req_args.path.endswith(("a", "/", "q")):
+                req_args.address = "http://mirror.test:8181"
+    return Retarget()
+
+
 def build_world(spec):
     ch = hw.conn_http
     mh = hw.mcaller_http
@@ -228,6 +245,8 @@ def build_world(spec):
                 o = ch.HttpConn(parent, adapters=ch.RequestAdapterAddPathPrefix(w["prefix"]))
             elif kind == "idsetter":
                 o = ch.HttpConn(parent, adapters=make_id_setter(w["idsetter"]))
+            elif kind == "retarget":
+                o = ch.HttpConn(parent, adapters=make_retarget())
             elif kind == "failing":
                 o = ch.HttpConn(parent, adapters=hw.make_adapter({"a": "fail"}, hw.make_adapter_classes()))
             elif kind == "nested":
